@@ -25,6 +25,9 @@ const (
 type c06Sym struct {
 	s      srule
 	source bool // matches the referrer as a document, not the request
+	// onlyPath: the referrer-level rule only matches referrers whose path starts
+	// with this (used by the engine layer, which asks from two referrers of one host)
+	onlyPath string
 }
 
 func c06Alphabet() (syms []c06Sym) {
@@ -51,10 +54,14 @@ func c06Alphabet() (syms []c06Sym) {
 		c06Sym{s: srule{true, c06Pat, []string{"badfilter"}}},
 		c06Sym{s: srule{false, c06Pat, []string{"domain=src.org", "badfilter"}}},
 		c06Sym{s: srule{true, c06Pat, []string{"stealth"}}},
+		c06Sym{s: srule{true, ".com^", []string{"important"}}},    // short pattern: sequential table, found last
+		c06Sym{s: srule{false, ".com^", []string{"important"}}},   // likewise, blocking
+		c06Sym{s: srule{false, "/x", []string{"domain=src.org"}}}, // domains table
 	)
 	for _, x := range []string{"urlblock", "genericblock", "document", "elemhide", "genericblock,jsinject", "urlblock,important", "genericblock,important", "urlblock,badfilter", "genericblock,badfilter", "stealth,urlblock", "stealth"} {
 		syms = append(syms, c06Sym{s: srule{true, c06SrcPat, strings.Split(x, ",")}, source: true})
 	}
+	syms = append(syms, c06Sym{s: srule{true, "||src.org/app/", []string{"urlblock"}}, source: true, onlyPath: "/app/"})
 	return syms
 }
 
@@ -232,15 +239,19 @@ func c06Direct(c *Ctx, syms []c06Sym, parsed []*rules.NetworkRule, ms []int) (ev
 }
 
 func c06Engine(c *Ctx, syms []c06Sym, set []int) (evals int64) {
-	var Rs, Ss []srule
+	var Rs, Ss, SsApp []srule
 	for _, i := range set {
 		if syms[i].source {
-			Ss = append(Ss, syms[i].s)
+			SsApp = append(SsApp, syms[i].s)
+			if syms[i].onlyPath == "" {
+				Ss = append(Ss, syms[i].s)
+			}
 		} else {
 			Rs = append(Rs, syms[i].s)
 		}
 	}
 	wantWeb := c06Reference(Rs, Ss, false)
+	wantWebApp := c06Reference(Rs, SsApp, false) // asked from http://src.org/app/x
 	wantNet := c06Reference(Rs, nil, false)
 	wantDNS := c06Reference(Rs, nil, true)
 	reported := false
@@ -262,6 +273,21 @@ func c06Engine(c *Ctx, syms []c06Sym, set []int) (evals int64) {
 			evals += 3
 			e := urlfilter.NewEngine(st)
 			b := e.MatchRequest(rules.NewRequest(c06URL, c06Src, rules.TypeScript)).GetBasicResult()
+			// the same engine asked again from another page of the same referrer host, and back
+			for k, src := range []string{"http://src.org/app/x", c06Src, "http://src.org/app/x"} {
+				want := wantWebApp
+				if k == 1 {
+					want = wantWeb
+				}
+				evals++
+				b2 := e.MatchRequest(rules.NewRequest(c06URL, src, rules.TypeScript)).GetBasicResult()
+				if got := c06ClassOfRule(b2); (got != want || c06Special(b2) != "") && !reported {
+					reported = true
+					c.Run.Violate(ev.Violation{Pred: "engine-verdict-equals-reference", Sig: map[string]any{"engine": "Engine.MatchRequest (reused)", "lines": lines, "split": split, "referrer": src},
+						What:   fmt.Sprintf("Engine.MatchRequest over lists %v | %v, query #%d on the same engine from referrer %s: %s (%s), documented precedence gives %s", lines[:split], lines[split:], k+2, src, renderNetText(b2), c06ClassNames[got], c06ClassNames[want]),
+						Replay: map[string]any{"lines": lines, "split": split}})
+				}
+			}
 			ne := urlfilter.NewNetworkEngine(st)
 			nb, _ := ne.Match(rules.NewRequest(c06URL, c06Src, rules.TypeScript))
 			de := urlfilter.NewDNSEngine(st)
